@@ -15,7 +15,7 @@ CHECKS = {
              "bytes are the spa's and no foreign byte (skolem index); failure => block object untouched; <= retry count "
              "requests with fresh sequence numbers; fault-free twin succeeds for every (start,length).",
         note="Bounded: <=2 segments/2 deliveries per attempt/2 attempts (quick), <=3/3/2 (thorough); fault-free twin for "
-             "length <=200 (quick) / <=1024 (thorough). Timeout scaled to 3 polls (config data, not code).",
+             "length <=200 (quick) / <=390 (thorough). Timeout scaled to 3 polls (config data, not code).",
         ref="5/C01"),
     "C02": dict(
         text="Every distinct item signature of the 151 shipped cfg/log tables (class, type, width, bit position, labels, "
